@@ -37,26 +37,26 @@ theorem Spells.endline {cs : List Char} {ts : List Tok} (h : SpellsNL cs ts) : S
 /-! ## what may follow a token in generated text -/
 
 /-- the characters after which a generated token ends: blank, newline, brackets -/
-def isDelim (c : Char) : Bool := c = ' ' || c = '\n' || c = '[' || c = ']'
+def isDelim (c : Char) : Bool := c = ' ' || c = '\n' || c = '[' || c = ']' || c = ':'
 
 def Delim (cs : List Char) : Prop := ∃ c r, cs = c :: r ∧ isDelim c = true
 
 theorem Delim.stopId {cs : List Char} (h : Delim cs) : StopId cs := by
   obtain ⟨c, r, rfl, hc⟩ := h
   simp only [isDelim, Bool.or_eq_true, decide_eq_true_eq] at hc
-  rcases hc with ((rfl | rfl) | rfl) | rfl <;> exact StopId.of_head (by decide) (by decide)
+  rcases hc with (((rfl | rfl) | rfl) | rfl) | rfl <;> exact StopId.of_head (by decide) (by decide)
 
 theorem Delim.stop {cs : List Char} (h : Delim cs) : Stop cs := by
   obtain ⟨c, r, rfl, hc⟩ := h
   simp only [isDelim, Bool.or_eq_true, decide_eq_true_eq] at hc
-  rcases hc with ((rfl | rfl) | rfl) | rfl <;> exact Stop.cons (by decide) (by decide) (by decide)
+  rcases hc with (((rfl | rfl) | rfl) | rfl) | rfl <;> exact Stop.cons (by decide) (by decide) (by decide)
 
 theorem Delim.stopInt {cs : List Char} (h : Delim cs) : ∀ c ∈ cs.head?, c.isDigit = false ∧ c ≠ '.' := by
   obtain ⟨c, r, rfl, hc⟩ := h
   simp only [isDelim, Bool.or_eq_true, decide_eq_true_eq] at hc
   intro d hd
   simp at hd; subst hd
-  rcases hc with ((rfl | rfl) | rfl) | rfl <;> exact ⟨by decide, by decide⟩
+  rcases hc with (((rfl | rfl) | rfl) | rfl) | rfl <;> exact ⟨by decide, by decide⟩
 
 /-! ## names -/
 
@@ -77,27 +77,45 @@ theorem Spells.keyword (w : String) (k : Tok) (hw : IdentShape w.toList) (hk : k
   have := Spells.word hw hs.stopId h
   simpa only [identTok, String.ofList_toList, hk] using this
 
-/-- decidable form of `IdentShape`, for the fixed words -/
-def identShapeB (w : List Char) : Bool :=
-  match w with
-  | c :: a => isAlpha_ c && ((identTail a).1 == a) && (identTail a).2.isEmpty
-  | [] => false
+/-! the fixed words of the language are identifier-shaped -/
 
-theorem identShapeB_sound {w : List Char} (h : identShapeB w = true) : IdentShape w := by
-  cases w with
-  | nil => simp [identShapeB] at h
-  | cons c a =>
-    simp only [identShapeB, Bool.and_eq_true, beq_iff_eq, List.isEmpty_iff] at h
-    exact ⟨c, a, rfl, h.1.1, Prod.ext h.1.2 h.2⟩
+theorem shape_let : IdentShape "let".toList := by
+  refine ⟨'l', "et".toList, rfl, by decide, ?_⟩
+  simp [TailOK, identTail, isAlnum_, isAlpha_, isDigit]
 
-theorem Spells.kw (w : String) (k : Tok) (hw : identShapeB w.toList = true) (hk : keyword? w = some k)
-    {cs : List Char} {ts : List Tok} (hs : Delim cs) (h : Spells cs ts) : Spells (w.toList ++ cs) (k :: ts) :=
-  Spells.keyword w k (identShapeB_sound hw) hk hs h
+theorem shape_register : IdentShape "register".toList := by
+  refine ⟨'r', "egister".toList, rfl, by decide, ?_⟩
+  simp [TailOK, identTail, isAlnum_, isAlpha_, isDigit]
+
+theorem shape_map : IdentShape "map".toList := by
+  refine ⟨'m', "ap".toList, rfl, by decide, ?_⟩
+  simp [TailOK, identTail, isAlnum_, isAlpha_, isDigit]
+
+theorem shape_macro : IdentShape "macro".toList := by
+  refine ⟨'m', "acro".toList, rfl, by decide, ?_⟩
+  simp [TailOK, identTail, isAlnum_, isAlpha_, isDigit]
+
+theorem shape_loop : IdentShape "loop".toList := by
+  refine ⟨'l', "oop".toList, rfl, by decide, ?_⟩
+  simp [TailOK, identTail, isAlnum_, isAlpha_, isDigit]
+
+theorem shape_subcircuit : IdentShape "subcircuit".toList := by
+  refine ⟨'s', "ubcircuit".toList, rfl, by decide, ?_⟩
+  simp [TailOK, identTail, isAlnum_, isAlpha_, isDigit]
+
+theorem shape_from : IdentShape "from".toList := by
+  refine ⟨'f', "rom".toList, rfl, by decide, ?_⟩
+  simp [TailOK, identTail, isAlnum_, isAlpha_, isDigit]
+
+theorem shape_usepulses : IdentShape "usepulses".toList := by
+  refine ⟨'u', "sepulses".toList, rfl, by decide, ?_⟩
+  simp [TailOK, identTail, isAlnum_, isAlpha_, isDigit]
 
 theorem delim_space (r : List Char) : Delim (' ' :: r) := ⟨' ', r, rfl, by decide⟩
 theorem delim_nl (r : List Char) : Delim ('\n' :: r) := ⟨'\n', r, rfl, by decide⟩
 theorem delim_lb (r : List Char) : Delim ('[' :: r) := ⟨'[', r, rfl, by decide⟩
 theorem delim_rb (r : List Char) : Delim (']' :: r) := ⟨']', r, rfl, by decide⟩
+theorem delim_colon (r : List Char) : Delim (':' :: r) := ⟨':', r, rfl, by decide⟩
 
 /-! ## numbers, names, references, arguments -/
 
@@ -318,7 +336,7 @@ theorem spell_open (indent : Bool) (depth : Nat) (par sub : Bool) (it : Val) (hi
       · have h1 := Spells.space hb
         have h2 := spell_ref hok hs (delim_space _) h1
         have h3 := Spells.space h2
-        have h4 := Spells.kw "subcircuit" .SUBCIRCUIT (by decide) rfl (delim_space _) h3
+        have h4 := Spells.keyword "subcircuit" .SUBCIRCUIT shape_subcircuit rfl (delim_space _) h3
         simp only [String.toList_append, List.append_assoc, if_true, subHead, hne]
         cases indent
         · simpa using h4
@@ -332,7 +350,7 @@ theorem spell_open (indent : Bool) (depth : Nat) (par sub : Bool) (it : Val) (hi
     · refine ⟨(if indent then tabs depth else "") ++ "subcircuit " ++ (if par then "<\n" else "{\n"),
         by simp [blockOpen, hne, pure, Except.pure, bind, Except.bind], ?_, ?_⟩
       · have h3 := Spells.space hb
-        have h4 := Spells.kw "subcircuit" .SUBCIRCUIT (by decide) rfl (delim_space _) h3
+        have h4 := Spells.keyword "subcircuit" .SUBCIRCUIT shape_subcircuit rfl (delim_space _) h3
         simp only [String.toList_append, List.append_assoc, if_true, subHead, hne]
         cases indent
         · simpa using h4
@@ -346,6 +364,7 @@ theorem spell_open (indent : Bool) (depth : Nat) (par sub : Bool) (it : Val) (hi
 
 theorem joinValue_ref {v : Val} (h : okRef v = true) : joinValue v = .ok (refStr v) := by
   simp [joinValue, genValue_ref h]
+  rfl
 
 /-- the part common to block statements, loops and macros: bracket, statements, closing bracket -/
 theorem spell_block_core (indent : Bool) (depth : Nat) (par sub : Bool) (it : Val) (b : List Stmt)
@@ -406,7 +425,7 @@ theorem spell_stmt_items : ∀ n : Nat,
             have h1 := Spells.space h0
             have h2 := spell_ref hc hsafe.1 (delim_space _) h1
             have h3 := Spells.space h2
-            have h4 := Spells.kw "loop" .LOOP (by decide) rfl (delim_space _) h3
+            have h4 := Spells.keyword "loop" .LOOP shape_loop rfl (delim_space _) h3
             have h5 := Spells.tabs depth h4
             simpa [stmtToks, String.toList_append, tabs_toList, List.append_assoc] using h5
           · simp only [String.toList_append, tabs_toList, List.append_assoc]
@@ -416,7 +435,7 @@ theorem spell_stmt_items : ∀ n : Nat,
         have hparts : (sub = true → okRef it = true) ∧ okItems p b = true := by
           cases sub
           · simp only [okStmt, Bool.false_eq_true, if_false, Bool.and_eq_true] at hok
-            exact ⟨by intro h; cases h, hok.2⟩
+            exact ⟨(by intro h; cases h), hok.2⟩
           · simp only [okStmt, if_true, Bool.and_eq_true, Bool.not_eq_true'] at hok
             obtain ⟨⟨⟨_, hp⟩, hc⟩, hb⟩ := hok
             subst hp
@@ -444,9 +463,11 @@ theorem spell_stmt_items : ∀ n : Nat,
         obtain ⟨x, hx, hsx, hnx⟩ := stmtCase s depth par hs1 hok1 hsafe.1 hsy
         refine ⟨x ++ y, by rw [hgen, hx, hy]; rfl, ?_⟩
         rw [htoks]
-        refine SpellsNL.of ?_ ?_
-        · simpa [String.toList_append, List.append_assoc] using hsx
-        · simpa [String.toList_append, List.append_assoc] using hnx
+        have happ : (x ++ y).toList ++ cs = x.toList ++ (y.toList ++ cs) := by
+          simp [String.toList_append, List.append_assoc]
+        rw [happ]
+        refine SpellsNL.of ?_ hnx
+        simpa [List.append_assoc] using hsx
       cases s with
       | gate name gd args =>
         simp only [okItems, Bool.and_eq_true] at hok
@@ -470,5 +491,54 @@ theorem spell_stmt_items : ∀ n : Nat,
             simpa [itemsToks, String.toList_append, List.append_assoc] using hsx
           · simp only [okItems, hp, if_false, Bool.and_eq_true] at hok
             exact general hok.1 hok.2 (by simp only [genItems, hp, if_false]) (by simp only [itemsToks, hp, if_false])
+
+theorem spell_stmt {s : Stmt} (depth : Nat) {par : Bool} (hok : okStmt par s = true) (hs : SafeStmt s)
+    {cs : List Char} {ts : List Tok} (K : SpellsNL cs ts) :
+    ∃ t, genStmt depth s = .ok t ∧ Spells (t.toList ++ cs) (stmtToks s ++ Tok.NL :: ts) ∧ NotNL (t.toList ++ cs) :=
+  (spell_stmt_items (sizeOf s + 1)).1 s depth par (Nat.lt_succ_self _) hok hs K
+
+theorem spell_items {l : List Stmt} (depth : Nat) {par : Bool} (hok : okItems par l = true) (hs : SafeItems l)
+    {cs : List Char} {ts : List Tok} (K : SpellsNL cs ts) :
+    ∃ t, genItems par depth l = .ok t ∧ SpellsNL (t.toList ++ cs) (itemsToks par l ++ ts) :=
+  (spell_stmt_items (sizeOf l + 1)).2 l depth par (Nat.lt_succ_self _) hok hs K
+
+/-- a statement at top level (a `{ }` block is allowed there) -/
+theorem spell_top {s : Stmt} (hok : okTop s = true) (hs : SafeStmt s) {cs : List Char} {ts : List Tok}
+    (K : SpellsNL cs ts) :
+    ∃ t, genStmt 0 s = .ok t ∧ Spells (t.toList ++ cs) (stmtToks s ++ Tok.NL :: ts) ∧ NotNL (t.toList ++ cs) := by
+  cases s with
+  | gate name gd args => exact spell_stmt 0 (par := false) hok hs K
+  | loop cnt body => exact spell_stmt 0 (par := false) hok hs K
+  | block p sub it b =>
+    cases p <;> cases sub
+    · simp only [okTop] at hok
+      simp only [SafeStmt] at hs
+      obtain ⟨op, inner, hop, hinner, hsp, hn⟩ := spell_block_core true 0 false false it b (by intro h; cases h) hs.1
+        (fun K' => spell_items 1 hok hs.2 K') K
+      exact ⟨op ++ inner ++ blockClose 0 false,
+        by simp only [genStmt, hop, hinner, bind, Except.bind, pure, Except.pure], by simpa [stmtToks] using hsp, hn⟩
+    · exact spell_stmt 0 (par := false) hok hs K
+    · exact spell_stmt 0 (par := false) hok hs K
+    · exact spell_stmt 0 (par := false) hok hs K
+
+/-! ## lines of a section -/
+
+theorem spell_concatM {α : Type} (f : α → M String) (tk : α → List Tok) :
+    ∀ (l : List α), (∀ x ∈ l, ∀ {cs : List Char} {ts : List Tok}, SpellsNL cs ts →
+        ∃ t, f x = .ok t ∧ Spells (t.toList ++ cs) (tk x ++ Tok.NL :: ts) ∧ NotNL (t.toList ++ cs)) →
+    ∀ {cs : List Char} {ts : List Tok}, SpellsNL cs ts →
+    ∃ t, concatM f l = .ok t ∧ SpellsNL (t.toList ++ cs) (lines tk l ++ ts) ∧
+      (l ≠ [] → Spells (t.toList ++ cs) (lines tk l ++ ts) ∧ NotNL (t.toList ++ cs))
+  | [], _, cs, ts, K => ⟨"", rfl, by simpa [lines] using K, fun h => absurd rfl h⟩
+  | x :: xs, hf, cs, ts, K => by
+    obtain ⟨y, hy, hsy, _⟩ := spell_concatM f tk xs (fun z hz => hf z (by simp [hz])) K
+    obtain ⟨t, ht, hst, hnt⟩ := hf x (by simp) hsy
+    have happ : (t ++ y).toList ++ cs = t.toList ++ (y.toList ++ cs) := by
+      simp [String.toList_append, List.append_assoc]
+    have hsp : Spells ((t ++ y).toList ++ cs) (lines tk (x :: xs) ++ ts) := by
+      rw [happ]; simpa [lines, List.append_assoc] using hst
+    have hnn : NotNL ((t ++ y).toList ++ cs) := by rw [happ]; exact hnt
+    exact ⟨t ++ y, by simp only [concatM, ht, hy, bind, Except.bind, pure, Except.pure], SpellsNL.of hsp hnn,
+      fun _ => ⟨hsp, hnn⟩⟩
 
 end Jaqal.RoundTrip
